@@ -220,8 +220,8 @@ func C05(rep *ev.Reporter, tier string) {
 	// arguments; the reference is Go's function of the same name. Only calls the reference model types are kept.
 	nBefore := len(exprs)
 	{
-		recv := []string{`"abcabc"`, "F.S", `""`, `"Ünï ab"`, `" pad\t"`, `F.SArr[1]`, `F.Cat(F.S, "yx")`}
-		sarg := []string{`"a"`, `"bc"`, `""`, `"y"`, "F.S", `"x" + "y"`, `F.Cat("a", "b")`}
+		recv := []string{`"abcabc"`, "F.S", `""`, `"Ünï ab"`, `"漢字ï漢"`, `" pad\t"`, `F.SArr[1]`, `F.Cat(F.S, "yx")`}
+		sarg := []string{`"a"`, `"bc"`, `""`, `"y"`, "F.S", `"x" + "y"`, `F.Cat("a", "b")`, `"ï"`, `"Ün"`}
 		for _, r := range recv {
 			for _, m := range []string{"Len", "ToLower", "ToUpper", "Trim"} {
 				add(grl.E(r+"."+m+"()"), "builtin-str0")
@@ -250,6 +250,9 @@ func C05(rep *ev.Reporter, tier string) {
 		}
 		for _, e := range []string{"F.Arr.Len()", "F.SArr.Len()", "F.M.Len()", `StringContains(F.S, "x")`, `StringContains("abc", F.S)`, `StringContains(F.S + "z", "yz")`,
 			"IsZero(F.I)", "IsZero(0)", "IsZero(0.0)", `IsZero("")`, "IsZero(F.S)", "IsZero(F.I - 5)", "IsNil(F.P)", "IsNil(F.PI)",
+			// 64-bit wrap-around, division and modulo of negative numbers (Go's rules)
+			"9223372036854775807 + F.I", "9223372036854775807 + 1", "-9223372036854775807 - F.I", "9223372036854775807 * 2", "F.I * 9223372036854775807", "4611686018427387904 * 2",
+			"-7 % 3", "7 % -3", "-7 % -3", "(0 - F.I) % 3", "-7 / 2", "7 / -2", "(0 - F.I) / 2", "F.I2 - F.I - F.I", "-8 & 3", "-8 | 3", "(0 - F.I) & 6",
 			"F.SV.Twice()", "F.P.Twice()", "F.P.Avail()", "F.SV.Twice() + F.P.Twice()", "F.P.Twice() + F.SV.Twice()", "F.P.Avail() + F.SV.Twice()", "F.SV.Twice() * 10 + F.P.Avail()",
 			"Max()", "Min()", "Max() + 1.5", "F.Cat()", `F.Cat() + "z"`, "F.Pick(0)", "F.Pick(1)", "F.Pick(0) + 2", `F.Cat("only")`,
 			"Max(1.5)", "Max(1.5, 2.5)", "Max(2.5, 1.5, F.F)", "Min(1.5, F.F, 0.5)", "Max(F.F, F.F * 3.0)", "Min(-0.0, 0.0)", "Abs(-1.5)", "Abs(F.F - 2.0)",
